@@ -85,20 +85,3 @@ func TestC16_KNOWN_MissingIncludePosition(t *testing.T) {
 		t.Logf("KNOWN FINDING: %v (position %d:%d lies in main.tpl, the error names %q)", err, e.Line, e.Column, e.Filename)
 	}
 }
-
-// The same defect at the two other sites that complete a load error with their own token (R-C16-CROSS).
-func TestC16_KNOWN_MissingImportAndSSIPosition(t *testing.T) {
-	for _, src := range []string{
-		"line one\nline two\n   {% import \"gone.tpl\" m %}",
-		"line one\nline two\n   {% ssi \"gone.tpl\" parsed %}",
-	} {
-		set := newSet(map[string]string{"main.tpl": src})
-		_, err := set.FromFile("main.tpl")
-		if err == nil {
-			t.Fatal("no error")
-		}
-		if e, ok := err.(*pongo2.Error); ok && e.Line > 0 && e.Filename != "main.tpl" {
-			t.Logf("KNOWN FINDING: %v (position %d:%d lies in main.tpl, the error names %q)", err, e.Line, e.Column, e.Filename)
-		}
-	}
-}
